@@ -13,6 +13,8 @@
 //!                      in a different rotation, every third op also on a value built inside the thread
 //!         clones       each op on `OpeningHours::clone()` of the value, on this thread and moved
 //!                      to another thread
+//!         recontext    one parse, several contexts (clone/with_context share the parsed expression): the
+//!                      same query under other contexts first, then under the item's own
 //!         interleaved  each op re-evaluated between evaluations of other expressions, and its
 //!                      iterator advanced step by step with other evaluations in between
 //!       An op counts as `equal` iff ALL its re-evaluations returned the reference answer.
@@ -143,6 +145,12 @@ fn build_val(expr: &str, ctx: &CtxSpec, bounded: bool) -> Val {
         Ok(Err(_)) => return Val::Bad("parse-error".into()),
         Err(p) => return Val::Bad(format!("parse-{p}")),
     };
+    build_val_from(oh, ctx, bounded)
+}
+
+/// the value for `ctx` derived from an already parsed expression (`with_context` keeps the parsed
+/// expression shared with every other value derived from the same parse)
+fn build_val_from(oh: OpeningHours<NoLocation>, ctx: &CtxSpec, bounded: bool) -> Val {
     let bound = TimeDelta::days(400);
     match ctx {
         CtxSpec::Plain => {
@@ -458,6 +466,46 @@ fn batch(mode: &str, n: usize, seed: u64) -> Option<String> {
                 tally.check(i, "clone-moved", &want[i], &got, it);
                 // and the original again after the clone has been used and dropped
                 tally.check(i, "original-after-clone", &want[i], &eval_shared(it), it);
+            }
+        }
+    } else if mode == "recontext" {
+        // ONE parse, several contexts: values derived by clone() / with_context() share the parsed
+        // expression; the same query is asked under other contexts immediately before (same thread,
+        // same day), then under the item's own context — anything remembered per expression or per
+        // day without the context shows as a different answer
+        for (i, it) in items.iter().enumerate() {
+            let Kind::Query { expr, ctx, bounded, q, .. } = &it.kind else {
+                tally.check(i, "line", &want[i], &eval_shared(it), it);
+                continue;
+            };
+            let oh0 = match catch(|| OpeningHours::parse(expr)) {
+                Ok(Ok(oh)) => oh,
+                _ => {
+                    tally.check(i, "unparsed", &want[i], &eval_shared(it), it);
+                    continue;
+                }
+            };
+            let others = [
+                CtxSpec::Plain,
+                CtxSpec::Country(COUNTRIES[i % COUNTRIES.len()]),
+                CtxSpec::Country("FR"),
+                CtxSpec::FromCoords(i % COORDS.len()),
+                CtxSpec::CoordsExplicitTz(i % 3, i % OTHER_ZONES.len()),
+                CtxSpec::TzAndCountry((i * 5 + 1) % COORDS.len()),
+            ];
+            for o in others.iter() {
+                let _ = eval_val(&build_val_from(oh0.clone(), o, *bounded), q);
+                let got = eval_val(&build_val_from(oh0.clone(), ctx, *bounded), q);
+                tally.check(i, "after-other-context-of-the-same-parse", &want[i], &got, it);
+            }
+            // and the other way round: the item's context first, then another one, against a value
+            // built from its own parse
+            let o = &others[i % others.len()];
+            let _ = eval_val(&build_val_from(oh0.clone(), ctx, *bounded), q);
+            let got = eval_val(&build_val_from(oh0.clone(), o, *bounded), q);
+            let alone = eval_val(&build_val(expr, o, *bounded), q);
+            if got != alone {
+                tally.check(i, "other-context-after-own", &alone, &got, it);
             }
         }
     } else if mode == "interleaved" {
@@ -857,7 +905,7 @@ pub fn gen(tier: &str, rng: &mut Rng, emit: &mut dyn FnMut(String)) {
     let (nseeds, n) = if thorough { (24, 6000) } else { (6, 2000) };
     for _ in 0..nseeds {
         let seed = rng.below(1_000_000);
-        for mode in ["seq", "threads8", "threads16", "clones", "interleaved"] {
+        for mode in ["seq", "threads8", "threads16", "clones", "interleaved", "recontext"] {
             emit(format!("pur.batch {mode} {n} {seed}"));
         }
         let k = rng.range(9, 15);
